@@ -509,6 +509,47 @@ pub fn run(out: &mut Out, tier: &str, rng: &mut Rng) {
         let h: Vec<u8> = (0..10).map(|_| rng.byte()).collect();
         hdr(out, &h);
     }
+    // ------------------------------------------------------------------ hdrs: SEVERAL headers on ONE stream (read_frame keeps its
+    // partially read header inside the Stream): each header is judged on its own, whatever was rejected before it
+    {
+        let rt = tokio::runtime::Builder::new_current_thread().enable_all().build().unwrap();
+        let good: [[u8; 10]; 3] = [[b'L', b'X', b'R', 3, 0x43, 0, 5, 0, 0, 0], [b'L', b'X', b'R', 3, 0x20, 0, 1, 0, 0, 0], [b'L', b'X', b'R', 3, 0x10, 4, 0, 0, 0, 0]];
+        let bad: [[u8; 10]; 6] = [
+            [b'L', b'X', b'R', 2, 0x43, 0, 5, 0, 0, 0], [b'L', b'X', b'R', 3, 0x43, 0, 0, 0, 0, 0], [b'L', b'X', b'R', 3, 0x43, 4, 1, 0, 0, 0],
+            [b'L', b'X', b'R', 3, 0x43, 0, 5, 0, 0, 1], [b'X', b'X', b'R', 3, 0x43, 0, 5, 0, 0, 0], [0xFF; 10],
+        ];
+        let mut seqs: Vec<Vec<[u8; 10]>> = vec![];
+        for b in bad {
+            for g in good {
+                seqs.push(vec![b, g]);
+                seqs.push(vec![g, b, g]);
+                seqs.push(vec![b, b, g, g]);
+            }
+        }
+        for q in seqs {
+            let mut bytes = vec![];
+            for h in &q {
+                bytes.extend_from_slice(h);
+            }
+            let n = q.len();
+            let res: Option<Vec<String>> = crate::util::guarded(std::panic::AssertUnwindSafe(|| {
+                rt.block_on(async {
+                    let mut st = glonax::protocol::Stream::new(std::io::Cursor::new(bytes));
+                    let mut v = vec![];
+                    for _ in 0..n {
+                        v.push(match tokio::time::timeout(std::time::Duration::from_secs(2), st.read_frame()).await {
+                            Ok(Ok(f)) => format!("ok:{}:{}", f.message, f.payload_length),
+                            Ok(Err(e)) => format!("err:{:?}", e.kind()),
+                            Err(_) => "HANG".to_string(),
+                        });
+                    }
+                    v
+                })
+            }));
+            out.case(&format!("hdrs {}", q.iter().map(|h| hex(h)).collect::<Vec<_>>().join(" ")), &res.map_or("PANIC".to_string(), |v| v.join(" ")), true);
+            out.count("several headers on one stream");
+        }
+    }
     // ------------------------------------------------------------------ dec
     // valid encodings per kind, harvested from the encoders above by re-generating a few objects
     let mut valid: Vec<(&'static str, Vec<u8>)> = vec![];
